@@ -926,6 +926,7 @@ Qed.
 Lemma be_step_op_QueryAll : forall d f hrels, step_op d (OQueryAll f hrels) =
   (rels <- resolveR hrels ;;
    rels <- resolve_relidx f rels ;;
+   check_unsafe_rels f rels ;;;
    qi <- query_open f rels ;;
    cnt <- query_count qi ;;
    es <- be_drain_go d qi (S cnt) [] ;;
@@ -944,12 +945,14 @@ Proof.
     + (* QueryAll *)
       apply be_simF_bind; [be_sim_kq | intros ?].
       apply be_simF_bind; [apply be_simF_ro, readonly_resolve_relidx | intros ?].
+      apply be_simF_bind; [apply be_simF_ro, readonly_check_unsafe_rels | intros ?].
       apply be_simF_bind; [apply be_simF_same, be_ok_open | intros ?].
       apply be_simF_bind; [apply be_simF_ro; intros s; apply query_count_readonly | intros ?].
       apply be_simF_bind; [apply be_sim_drain | intros ?].
       apply be_simF_bind; [apply be_simF_same, be_ok_close | intros ?]. apply be_simF_ret.
     + apply be_simF_bind; [be_sim_kq | intros ?].
       apply be_simF_bind; [apply be_simF_ro, readonly_resolve_relidx | intros ?].
+      apply be_simF_bind; [apply be_simF_ro, readonly_check_unsafe_rels | intros ?].
       apply be_simF_bind; [apply be_simF_same, be_ok_open | intros ?]. apply be_simF_ret.
     + apply be_simF_bind; [apply be_sim_next | intros ?]. apply be_simF_ret.
     + apply be_simF_bind; [apply be_simF_same, be_ok_close | intros ?]. apply be_simF_ret.
@@ -1762,6 +1765,16 @@ Proof.
   eapply be_hom_bind; [apply be_hom_of_opt; reflexivity|]. intros c1 c2 Hc. cbv beta in Hc. subst c1. apply be_hom_ret. reflexivity.
 Qed.
 #[export] Hint Resolve be_hom_resolve_relidx : be_hom.
+
+Lemma be_hom_check_unsafe_rels : forall fi rels, be_hom eq (check_unsafe_rels fi rels) (check_unsafe_rels fi rels).
+Proof.
+  intros fi rels. unfold check_unsafe_rels. destruct (is_nil rels); [apply be_hom_ret; reflexivity|].
+  eapply be_hom_bind; [apply be_hom_getF|]. intros f1 f2 Hf. cbv beta in Hf. subst f1.
+  change (f_unsafe (be_Tf f2)) with (f_unsafe f2). change (f_mask (be_Tf f2)) with (f_mask f2).
+  destruct (f_unsafe f2); cbn [whenM]; [|apply be_hom_ret; reflexivity].
+  be_hom_tac.
+Qed.
+#[export] Hint Resolve be_hom_check_unsafe_rels : be_hom.
 
 Lemma be_hom_ut_go : forall f rels l acc, Forall (fun a => be_small (a_mask a)) l ->
   be_hom eq (be_ut_go (be_Tf f) rels l acc) (be_ut_go f rels l acc).
